@@ -35,6 +35,10 @@ pub trait Compiler {
     type Expression;
 
     fn compile(&mut self, tir: &AnyTir) -> Result<CompiledTx, Error>;
+
+    /// Forgets what earlier transactions left behind in the instance (such as the body
+    /// used to size minimum UTxO values); called before the first pass over a transaction.
+    fn reset(&mut self) {}
     fn reduce_op(&self, op: Self::CompilerOp) -> Result<Self::Expression, crate::reduce::Error>;
 }
 
